@@ -193,7 +193,8 @@ def side_rng(rng):
     """A second generator derived from the state of `rng` WITHOUT drawing from it: additions to a generator use it so that the
     inputs an unchanged part produces for a given VERIF_SEED stay what they were."""
     import random
-    return random.Random(hash(rng.getstate()) & 0xFFFFFFFFFFFF)
+    import zlib
+    return random.Random(zlib.crc32(repr(rng.getstate()[1]).encode()))
 
 
 def gen_project(rng, n_bases=3, heavy_noise_p=0.25, max_items=9, twins_p=0.5, wrap_p=0.0, force_wrap=None, doc_p=0.0, docedit_p=0.0):
@@ -356,9 +357,21 @@ def coq_frag(i, f, files, trees, feats=None, lshfeats=None):
 TYPES = {1: "Type1", 2: "Type2", 3: "Type3", 4: "Type4"}
 
 
+def lsh_threshold_for_model(thr, hashes):
+    """EstimateJaccardSimilarity returns float64(matches) / float64(n) and the detector compares that float64 with the float64
+    threshold; the model compares exact rationals.  The two agree for every match count iff the model's threshold is m0/n where m0 is
+    the least match count whose float64 quotient reaches the (clamped) threshold -- e.g. threshold 0.8 and n = 100: float64(80)/float64(100)
+    IS the float64 0.8 (not below it), although 4/5 is below the exact value of that float64."""
+    n = hashes if hashes > 0 else 128
+    t = min(1.0, max(0.0, float(thr)))
+    m0 = next(m for m in range(n + 1) if float(m) / float(n) >= t)
+    return Fraction(m0, n)
+
+
 def coq_cfg(c):
-    """c: dict with the model's cfg fields (floats are converted exactly)."""
-    q = lambda x: cQ(f2q(x))
+    """c: dict with the model's cfg fields (floats are converted exactly; the LSH threshold via lsh_threshold_for_model)."""
+    q = lambda x: cQ(x if isinstance(x, Fraction) else f2q(x))
+    c = dict(c, lsh_thr=lsh_threshold_for_model(c["lsh_thr"], c["lsh_hashes"]))
     return "(Build_cfg %s %s %s %s %s %s %s %s %s %s %s %s %s %s %s %s %s %s %s %s %s %s)" % (
         cZ(c["min_lines"]), cZ(c["min_nodes"]), q(c["t1"]), q(c["t2"]), q(c["t3"]), q(c["t4"]), q(c["sim_thr"]),
         q(c["max_dist"]), cZ(c["max_pairs"]), cZ(c["batch_threshold"]), cZ(c["batch_large"]), cZ(c["batch_small"]),
@@ -646,11 +659,11 @@ def gen_ratio_project(rng, pads=True, fillers=None, per_file=None):
     if pads:
         n = rng.choice([5, 6, 7])
         base = n + 2
-        padded = [("pad%d" % p, straight_function("pad%d" % p, n, 3, p), dict(lines=base + p)) for p in (base - 1, base, base + 1)]
-        rng.shuffle(padded)
-        cut = rng.randint(1, len(padded) - 1)
-        plain = [("pad0", straight_function("pad0", n, 3, 0), dict(lines=base))]
-        block = padded[:cut] + plain + padded[cut:]
+        mk = lambda tag: [("pad%d%s" % (p, tag), straight_function("pad%d%s" % (p, tag), n, 3, p), dict(lines=base + p)) for p in (base - 1, base, base + 1)]
+        before, after = mk("a"), mk("b")
+        rng.shuffle(before)
+        rng.shuffle(after)
+        block = before + [("pad0", straight_function("pad0", n, 3, 0), dict(lines=base))] + after
         at = rng.randint(0, len(members))
         members = members[:at] + block + members[at:]
     n_fill = rng.randint(0, 2) if fillers is None else fillers
